@@ -5,3 +5,6 @@ global size_of usize == 8;
 fn verif_count_succ(c: u64) -> (r: u64)
     ensures r == c + 1
 { c + 1 }
+// std `<[T]>::to_vec` (no spec in vstd): a vector of the same length whose elements are clones of the slice's elements
+pub assume_specification<T: Clone> [<[T]>::to_vec] (s: &[T]) -> (r: Vec<T>)
+    ensures r@.len() == s@.len(), forall|i: int| 0 <= i < s@.len() ==> cloned::<T>(#[trigger] s@[i], r@[i]);
